@@ -129,6 +129,13 @@ CheckDamage(r) ==
        IN Rej("C03", r.id, "damaged variant accepted",
               [kind |-> a.kind, pos |-> a.pos, b |-> a.b, mode |-> a.mode, field |-> wh.field, part |-> wh.part,
                integrity |-> IF Agrees(a.bytes, r.tags) THEN "holds" ELSE "broken"])
+  \* "is rejected with an error": a parser that panics or does not return on a damaged message has not rejected it (C03, C11)
+  /\ \A i \in 1..Len(r.crashed) :
+       LET a == r.crashed[i]
+       IN /\ Rej("C03", r.id, "damaged variant was not rejected with an error: the parser panicked or did not return",
+                 [kind |-> a.kind, pos |-> a.pos, b |-> a.b, how |-> a.mode])
+          /\ Rej("C11", r.id, "the parser panicked or did not return on a damaged message",
+                 [kind |-> a.kind, pos |-> a.pos, b |-> a.b, how |-> a.mode])
 
 (***************************************************************************)
 (* "raw": an arbitrary byte string fed to the parser / the tag lookup      *)
